@@ -27,9 +27,9 @@ META = {
     "explanation": "SMT check over the whole real line of arguments (t = e^v as working variable), first order in u",
     "bounds": {"quick": {"K_ulps": 16, "argument": "all reals (t>0)", "order": "first order in u"},
                "thorough": {"K_ulps": 16, "argument": "all reals", "accumulations": "<= 4 terms"}},
-    "outside": "second-order rounding terms; accuracy of libm itself (assumed <= 1 ulp); subnormal results; a conditioning-aware "
-               "error bound for the two-argument helpers log_sum_exp/log_diff_exp (they are one addition on top of the one-argument "
-               "helpers analysed here; the attempted bound needs upper-bound axioms on log that are not yet in the encoding)",
+    "outside": "second-order rounding terms; accuracy of libm itself (assumed <= 1 ulp); subnormal results; for the two-argument helpers "
+               "the bound is the conditioning-aware one, error <= K u (|v1| + |v2| + |result|), because the result can be arbitrarily close to "
+               "zero while the operands are not",
     "stubs": ["math.exp/log/log1p/expm1 as imported into mici.utils: error-model versions"],
     "assumptions": ["libm functions and arithmetic return x(1+d), |d| <= u = 2^-53", "elementary bounds: t/(1+t) <= log(1+t) <= t, "
                     "t <= -log(1-t) <= t/(1-t), |log Z| >= 0.69 for Z >= 2 or Z <= 1/2"],
@@ -113,13 +113,15 @@ class LogV:
     def __add__(s, o):
         X = s.X * o.X
         L = ENV.Lvar(X)
-        ENV.ax_low.append(L <= ENV.Lvar(s.X) + ENV.Lvar(o.X))  # |log(ab)| <= |log a| + |log b|
+        La, Lb = ENV.Lvar(s.X), ENV.Lvar(o.X)
+        ENV.ax_low.append(z3.And(L <= La + Lb, La <= L + Lb, Lb <= L + La))  # triangle inequalities for |log(ab)|, |log a|, |log b|
         return LogV(X, s.err + o.err + L)
 
     def __sub__(s, o):
         X = s.X / o.X
         L = ENV.Lvar(X)
-        ENV.ax_low.append(L <= ENV.Lvar(s.X) + ENV.Lvar(o.X))  # |log(a/b)| <= |log a| + |log b|
+        La, Lb = ENV.Lvar(s.X), ENV.Lvar(o.X)
+        ENV.ax_low.append(z3.And(L <= La + Lb, La <= L + Lb, Lb <= L + La))  # triangle inequalities for |log(a/b)|, |log a|, |log b|
         return LogV(X, s.err + o.err + L)
 
 
@@ -222,6 +224,11 @@ def case_precision2(rec, fname):
             continue
         scale = ENV.Lvar(res.X) + ENV.Lvar(T1) + ENV.Lvar(T2)
         assumptions = base + ctx.pc + ENV.ax_low
+        spec = (T1 + T2) if fname == "log_sum_exp" else (T1 - T2)
+        rec.obligation(f"{fname} path {pcs}: exact value of the evaluated formula is log(e^v1 {'+' if fname == 'log_sum_exp' else '-'} e^v2)",
+                       base + ctx.pc, res.X != spec, key=f"{fname}:value",
+                       replay=lambda m: {"fname2": fname, "t1": float(m.eval(T1, model_completion=True).numerator_as_long()) / float(m.eval(T1, model_completion=True).denominator_as_long()),
+                                         "t2": float(m.eval(T2, model_completion=True).numerator_as_long()) / float(m.eval(T2, model_completion=True).denominator_as_long())})
 
         def payload(m):
             a, b = m.eval(T1, model_completion=True), m.eval(T2, model_completion=True)
@@ -359,6 +366,8 @@ def case_specials(rec):
 def cases(tier):
     return [Case("precision/log1m_exp", case_precision, {"fname": "log1m_exp", "region": "neg"}, timeout_s=600),
             Case("precision/log1p_exp", case_precision, {"fname": "log1p_exp", "region": "all"}, timeout_s=600),
+            Case("precision/log_sum_exp", case_precision2, {"fname": "log_sum_exp"}, timeout_s=600),
+            Case("precision/log_diff_exp", case_precision2, {"fname": "log_diff_exp"}, timeout_s=600),
             Case("algebra", case_algebra, {}, timeout_s=600),
             Case("specials", case_specials, {}, timeout_s=300)]
 
